@@ -53,12 +53,21 @@ def r1_marker(c, facts):
     guarded = False
     true_target = None
     for cb, ct in ck:
-        sw = fn.mir['blocks'][ct['target']]['term']
-        if sw['t'] == 'switch' and sw['discr'].get('l') == ct['dest']['l']:
-            f_t = [P.enum_edges(sw)['0']] if '0' in P.enum_edges(sw) else []
-            if f_t and fn.dominates(f_t[0], mb):
-                guarded = True
-                true_target = sw['otherwise']
+        cands = [fn.mir['blocks'][ct['target']]['term']]
+        # the test may stand in a private method spliced in (`ctx.has_reference(&ident)`): the switch is then on a copy of the result
+        for b2, blk2 in fn.blocks():
+            sw2 = blk2['term']
+            if sw2['t'] == 'switch' and 'l' in sw2['discr'] and sw2 is not cands[0]:
+                sl2 = MF.slice_back(fn, sw2['discr']['l'], idx, through_calls=False)
+                plain = all(d['rv']['r'] == 'use' for l2 in sl2['locals'] for k2, _, d in idx.get(l2, []) if k2 == 'assign' and l2 != ct['dest']['l'])
+                if ct['dest']['l'] in sl2['locals'] and plain:
+                    cands.append(sw2)
+        for sw in cands:
+            if sw['t'] == 'switch' and (sw['discr'].get('l') == ct['dest']['l'] or sw is not cands[0]):
+                f_t = [P.enum_edges(sw)['0']] if '0' in P.enum_edges(sw) else []
+                if f_t and fn.dominates(f_t[0], mb):
+                    guarded = True
+                    true_target = sw['otherwise']
     how = 'the false edge of refs.contains_key(ident)'
     if not guarded:
         # `match refs.get(&ident).cloned() { None => <first evaluation>, Some(None) => .., Some(Some(v)) => .. }`
